@@ -12,7 +12,7 @@
 (*   pool  sequence of [t |-> tree, rows |-> reference rows]               *)
 (*   acts  the history                                                     *)
 (***************************************************************************)
-EXTENDS RA_SqlSem, Json
+EXTENDS RA_SqlSem, RA_Proc, Json
 
 CONSTANTS MaxLen, MaxPool, Emit
 
@@ -34,7 +34,10 @@ UnOps == {Sort(TotalAB), Sort(<<Term(B, FALSE)>>), Sel(Cmp("eq", A, Lit(1))), Pr
           Sel(In(A, SeqC(<<Lit(1), B>>)))}
 
 Entry(t, rows) == [t |-> t, rows |-> rows]
-Init == /\ pool = <<Entry(LeafL, LRows), Entry(PlainSel(LeafT), LRows), Entry(PlainSel(LeafT2), T2Rows)>>
+\* a fourth initial member: the tree Processor.process() returns for L transferred into the
+\* SQL engine - its transfer holds a payload (a temporary table), and users keep building on it
+ProcessedL == ProcessTop(TransferTo(LeafL, "sql"), {}).t
+Init == /\ pool = <<Entry(LeafL, LRows), Entry(PlainSel(LeafT), LRows), Entry(PlainSel(LeafT2), T2Rows), Entry(ProcessedL, LRows)>>
         /\ acts = <<>>
 
 CommonCols(c1, c2) == {c \in c1 \cap c2 : IsKey(c)}
@@ -57,7 +60,7 @@ BuildActs ==
       \cup {[a |-> "chain", i |-> i, j |-> j] : i \in Idx, j \in Idx}
       \cup {[a |-> "join", i |-> i, j |-> j] : i \in Idx, j \in Idx}
       \cup {[a |-> "mat", i |-> i, name |-> "m1"] : i \in Idx}
-      \cup {[a |-> "xfer", i |-> i, dest |-> e] : i \in Idx, e \in {"it1", "it2"}}
+      \cup {[a |-> "xfer", i |-> i, dest |-> e] : i \in Idx, e \in {"it1", "it2", "sql"}}
 
 Build == /\ Len(acts) < MaxLen /\ Len(pool) < MaxPool
          /\ \E a \in BuildActs :
@@ -77,7 +80,8 @@ SingleEngine(t) ==
     CASE t.k = "leaf" -> TRUE
       [] t.k = "un"   -> SingleEngine(t.t)
       [] t.k = "bin"  -> SingleEngine(t.l) /\ SingleEngine(t.r)
-      [] t.k = "xfer" -> KindOf(t.dest) = "iter" /\ KindOf(Eng(t.t)) = "iter" /\ SingleEngine(t.t)
+      [] t.k = "xfer" -> \/ (Has(t, "p") /\ t.p)          \* a transfer that holds a payload is evaluable as it is
+                         \/ KindOf(t.dest) = "iter" /\ KindOf(Eng(t.t)) = "iter" /\ SingleEngine(t.t)
       [] t.k = "mat"  -> KindOf(Eng(t)) = "iter" /\ SingleEngine(t.t)
       [] t.k = "sel"  -> SingleEngine(t.skip)
 
